@@ -43,3 +43,5 @@ pub fn unhex(s: &str) -> Vec<u8> {
 pub fn unhex_str(s: &str) -> String {
     String::from_utf8(unhex(s)).expect("utf8")
 }
+
+pub mod pool;
